@@ -307,6 +307,7 @@ func specItemFor(it pathItem) string { panic("uninterpreted: the path template t
 
 //@ func verifMediaExamples(p *parser, ctx *jsonpointer.ResolveCtx, m ogen.Media, s *jsonschema.Schema) (exs map[string]*openapi.Example, err error)
 //@   requires recv: p != nil && ctx != nil
+//@   maprange
 //@   noframe safety-only contract of an extracted section (it fills a map it allocates itself and appends to the schema's examples)
 //@   modifies ctx.depthLimit, ctx.refs[*], ctx.locstack, s.Examples
 //@   ensures total: true
